@@ -27,6 +27,14 @@ object each call returns) are recorded from the real classes and validated by
 specs/Trace_AnnotDb.tla, which reuses the actions of AnnotDb.tla; a corrupted
 copy of one trace must be rejected (binding self-test).
 
+loading (specs/AnnotDbLoad.tla, harness/load_C17.py).  What records a GFF3 file
+denotes: multi-line features, lines without ID, Parent references, seqids=
+filter, lines_per_block, loading into a database with records, loading twice;
+records incl. parent_id and get_feature_children are compared.
+
+read-only calls beyond the listed property (AnnotDb.tla): a column constrained
+to a list of values, count_distinct, describe / biotype_counts.
+
 provenance (specs/AnnotDbProv.tla, harness/prov_C17.py).  Two related objects and
 where each lives (memory / bound to a file / in-memory copy of a file-bound
 object): update and union between them in both directions, for every combination
@@ -824,13 +832,23 @@ def check(run: Run):
         t0 = time.time()
         nprov = prov_C17.validate(run, scratch, fraction=0.3 if tier == "quick" else 1.0)
         run.extra["wall_by_phase_s"]["provenance"] = round(time.time() - t0, 1)
+        # loading: the records a GFF3 file denotes (AnnotDbLoad.tla)
+        import load_C17
+
+        t0 = time.time()
+        if tier == "quick":
+            nload = load_C17.validate(run, scratch, "MC_AnnotDb_load_quick.cfg", 0.12)
+        else:
+            nload = load_C17.validate(run, scratch, "MC_AnnotDb_load_quick.cfg", 1.0)
+            nload += load_C17.validate(run, scratch, "MC_AnnotDb_load_thorough.cfg", 0.25)
+        run.extra["wall_by_phase_s"]["loading"] = round(time.time() - t0, 1)
     acts = dict(totals["byact"])
     needed = {"QueryList", "CountDistinct", "Describe", "Query", "Subset", "Union", "Update", "Copy", "Pickle", "Json", "WriteLoad", "AddFeature", "AddRow", "LoadFile"}
     if needed - set(acts):
         raise MachineryError(f"vacuous run: no real execution of {sorted(needed - set(acts))}")
-    run.cov["traces_validated_against_impl"] = totals["n"] + nev + nprov
-    run.cov["evaluations"] = totals["n"] + nev + nprov
-    run.cov["distinct_nontrivial"] = totals["nontrivial"] + nprov
+    run.cov["traces_validated_against_impl"] = totals["n"] + nev + nprov + nload
+    run.cov["evaluations"] = totals["n"] + nev + nprov + nload
+    run.cov["distinct_nontrivial"] = totals["nontrivial"] + nprov + nload
     run.cov["rule"] = (
         "a case = (database class, history of calls from an empty database, one more call) taken from the transitions TLC emitted; "
         "every case is executed once on the real class (cases are distinct by construction); non-trivial = the database holds a record "
@@ -840,7 +858,9 @@ def check(run: Run):
         "seeded random call sequences accepted by Trace_AnnotDb.tla are counted in evaluations, not in distinct_nontrivial. "
         "Provenance model (AnnotDbProv.tla): every update/union between a database and a derived second object (thorough: all; quick: every "
         "provenance combination plus a seeded 30%) is run by replaying its shortest call path on real objects, comparing both objects after "
-        "each call; distinct (class, state, call) pairs executed are counted."
+        "each call; distinct (class, state, call) pairs executed are counted. Loading model (AnnotDbLoad.tla): every emitted load of a file "
+        "in which a feature spans several lines, plus a seeded fraction of the other loads (quick 12%; thorough all 1-2 line files and 25% of "
+        "the 3 line files), is executed through load_annotations on a written file; each executed transition is a distinct case."
     )
     run.cov["exhaustive"] = False
     run.note("exhaustive_at_depth_1", True)
